@@ -267,3 +267,49 @@ func BadVacuousAfterAssumedContract() int {
 	}
 	return 2 // contract claims result == 3: "proved" only if the path after oracle() is dead
 }
+
+// ---- loop writes: element of a slice fixed before the loop (pointwise by backing array) ----
+
+func OkLoopWritesOwnSlice(a []int, other []int) {
+	for i := 0; i < len(a); i++ {
+		a[i] = 0
+	}
+}
+
+// the loop writes the OTHER slice's array although the frame lists only elems(a)
+func BadLoopWritesOtherSlice(a []int, other []int) {
+	for i := 0; i < len(a) && i < len(other); i++ {
+		other[i] = 0
+	}
+}
+
+// ---- loop writes: map made inside the loop body (fresh) vs. a map that existed before ----
+
+func OkLoopFillsFreshMap(confs []map[string]int) int {
+	n := 0
+	for _, c := range confs {
+		cp := make(map[string]int)
+		for k, v := range c {
+			cp[k] = v
+		}
+		cp["extra"] = 1
+		n = len(cp)
+	}
+	return n
+}
+
+// the loop stores into the caller's maps: the frame (fresh maps only) must fail
+func BadLoopWritesCallerMap(confs []map[string]int) int {
+	n := 0
+	for _, c := range confs {
+		cp := c
+		if n > 0 {
+			cp = make(map[string]int)
+		}
+		if c != nil {
+			c["extra"] = 1
+		}
+		n = len(cp)
+	}
+	return n
+}
